@@ -124,19 +124,23 @@ fn irregular_subjects() -> Vec<Subject> {
     use crate::spec::archive::{encode_foreign, Layout, Node};
     use crate::spec::dir::SEntry;
     use crate::spec::header::SHeader;
-    let data: Vec<u8> = (0..64u8).map(|i| b'a' + i % 26).collect();
+    let data: Vec<u8> = (0..=255u8).map(|i| b'a' + i % 26).collect();
     let t = |id: u64, off: u64, len: u32, run: u32| Node::Tile(SEntry::new(id, off, len, run));
     let trees: Vec<(&str, Vec<Node>)> = vec![
         ("same-id-twice", vec![t(1, 0, 2, 1), t(3, 2, 3, 1), t(3, 5, 4, 1), t(9, 9, 1, 1)]),
         ("override-inside-run", vec![t(0, 0, 2, 6), t(2, 2, 3, 1), t(4, 5, 4, 2), t(15, 9, 5, 1), t(15, 14, 6, 1)]),
         ("across-leaves", vec![Node::Leaf(0, vec![t(0, 0, 2, 4), t(15, 2, 5, 1)]), Node::Leaf(2, vec![t(2, 7, 3, 1), t(10, 10, 2, 3)]), Node::Leaf(15, vec![t(15, 12, 6, 1), t(16, 18, 2, 1)])]),
+        // more than 20 entries collected per open (sorting routines switch algorithm there): two leaves of 32 entries
+        // each addressing the same ids with different bytes, and one flat directory listing 24 ids twice
+        ("two-leaves-of-32-same-ids", vec![Node::Leaf(0, (0..32u64).map(|k| t(k, k, 1 + (k % 3) as u32, 1)).collect()), Node::Leaf(0, (0..32u64).map(|k| t(k, 100 + 2 * k, 2, 1)).collect())]),
+        ("flat-24-ids-twice", (0..24u64).flat_map(|k| [t(k, k, 2, 1), t(k, 120 + 3 * k, 3, 1)]).collect()),
         ("later-leaf-lower-ids", vec![Node::Leaf(10, vec![t(10, 0, 2, 3), t(20, 2, 2, 1)]), Node::Leaf(11, vec![t(11, 4, 3, 1), t(12, 7, 3, 1), t(20, 10, 4, 1)])]),
     ];
     let mut out = Vec::new();
     for (i, (name, root)) in trees.into_iter().enumerate() {
         let comp = [1u8, 2, 4, 3][i % 4];
         let f = encode_foreign(&root, &data, Some(b"{}"), comp, &Layout::default(), SHeader { tile_type: 2, tile_compression: 1, ..SHeader::default() });
-        let mut endpoints: Vec<u64> = (0..=22).collect();
+        let mut endpoints: Vec<u64> = if name.contains("32") || name.contains("24") { (0..=33).step_by(3).chain([1, 23, 24, 31, 32]).collect() } else { (0..=22).collect() };
         endpoints.extend([u64::MAX - 1, u64::MAX]);
         out.push(subject_from_lib_open(&format!("irregular-{name}"), f.bytes, json!({"irregular":name,"comp":comp}), endpoints));
     }
@@ -162,18 +166,18 @@ pub fn subjects(thorough: bool) -> Vec<Subject> {
     out.push(subject_from_bytes("lib-three-leaves-none", write_lib(&l, Api::Sync).unwrap(), json!({"lib":"window","family":0,"n":9000,"comp":"none"}), if thorough { 30 } else { 18 }));
     // foreign
     let specs = [
-        Spec { order: 0, gap: 0, root_gap: false, shape: Shape::Leaves, run: 3, offs: Offs::Contiguous, n: 7, meta: 1, comp: 1, base: 0, hv: 0, level_order: false },
-        Spec { order: 3, gap: 13, root_gap: true, shape: Shape::Depth3, run: 2, offs: Offs::BackRefs, n: 7, meta: 2, comp: 2, base: 1, hv: 1, level_order: false },
-        Spec { order: 5, gap: 1, root_gap: false, shape: Shape::Mixed, run: 3, offs: Offs::Overlapping, n: 7, meta: 0, comp: 4, base: 5, hv: 2, level_order: false },
-        Spec { order: 1, gap: 0, root_gap: false, shape: Shape::Depth3, run: 1, offs: Offs::Descending, n: 7, meta: 1, comp: 3, base: 1 << 40, hv: 3, level_order: false },
-        Spec { order: 2, gap: 0, root_gap: false, shape: Shape::RootOnly, run: 2, offs: Offs::Contiguous, n: 3, meta: 1, comp: 1, base: 0, hv: 0, level_order: false },
+        Spec { order: 0, gap: 0, root_gap: false, shape: Shape::Leaves, run: 3, offs: Offs::Contiguous, n: 7, meta: 1, comp: 1, base: 0, hv: 0, level_order: false, cv: 0 },
+        Spec { order: 3, gap: 13, root_gap: true, shape: Shape::Depth3, run: 2, offs: Offs::BackRefs, n: 7, meta: 2, comp: 2, base: 1, hv: 1, level_order: false, cv: 0 },
+        Spec { order: 5, gap: 1, root_gap: false, shape: Shape::Mixed, run: 3, offs: Offs::Overlapping, n: 7, meta: 0, comp: 4, base: 5, hv: 2, level_order: false, cv: 0 },
+        Spec { order: 1, gap: 0, root_gap: false, shape: Shape::Depth3, run: 1, offs: Offs::Descending, n: 7, meta: 1, comp: 3, base: 1 << 40, hv: 3, level_order: false, cv: 0 },
+        Spec { order: 2, gap: 0, root_gap: false, shape: Shape::RootOnly, run: 2, offs: Offs::Contiguous, n: 3, meta: 1, comp: 1, base: 0, hv: 0, level_order: false, cv: 0 },
     ];
     for (i, s) in specs.iter().enumerate() {
         out.push(subject_from_bytes(&format!("foreign-{i}-{:?}", s.shape), foreign::build(s).bytes, s.to_json(), if thorough { 90 } else { 40 }));
     }
     // more than 16 tiles whose bytes are nested in one another (the tile that starts last ends first), flat and in leaves
     for (i, shape) in [Shape::RootOnly, Shape::Leaves].into_iter().enumerate() {
-        let s = Spec { order: i, gap: i, root_gap: false, shape, run: 1, offs: Offs::Nested, n: 40, meta: 1, comp: 1 + i as u8, base: 3, hv: 0, level_order: false };
+        let s = Spec { order: i, gap: i, root_gap: false, shape, run: 1, offs: Offs::Nested, n: 40, meta: 1, comp: 1 + i as u8, base: 3, hv: 0, level_order: false, cv: 0 };
         out.push(subject_from_bytes(&format!("foreign-nested-40-{shape:?}"), foreign::build(&s).bytes, s.to_json(), if thorough { 60 } else { 30 }));
     }
     out.extend(irregular_subjects());
@@ -282,7 +286,7 @@ pub fn check_range(s: &Subject, lo: B, hi: B, max_lookups: usize) -> Vec<(String
 pub fn run(tier: &str) -> i32 {
     let rep = Report::new("C11", tier, "exploration");
     let thorough = rep.thorough();
-    rep.rule("for each of 16 archives (4 library-written incl. leaf directories, 8 foreign with depth 2-3, runs straddling leaf boundaries, 40 tiles with nested byte extents, a pointer id below its leaf's first entry; 4 irregular ones in which an id is covered by several entries - reference = the library's own full open): endpoint set V = {0,1,u64::MAX-1,u64::MAX, every leaf first id -1/0/+1, run starts/ends -1/0/+1, max id +-1, entry ids +- 2^32 (+ run length)}; ALL pairs (Included|Excluded|Unbounded)(v) x (Included|Excluded|Unbounded)(v) incl. empty and inverted ranges, through from_bytes_partially, from_reader_partially, from_async_reader_partially, util::read_directories(_async); oracle = full content (spec reader) filtered by RangeBounds::contains; non-trivial = ranges selecting a proper non-empty subset");
+    rep.rule("for each of 18 archives (4 library-written incl. leaf directories, 8 foreign with depth 2-3, runs straddling leaf boundaries, 40 tiles with nested byte extents, a pointer id below its leaf's first entry; 6 irregular ones in which an id is covered by several entries - reference = the library's own full open): endpoint set V = {0,1,u64::MAX-1,u64::MAX, every leaf first id -1/0/+1, run starts/ends -1/0/+1, max id +-1, entry ids +- 2^32 (+ run length)}; ALL pairs (Included|Excluded|Unbounded)(v) x (Included|Excluded|Unbounded)(v) incl. empty and inverted ranges, through from_bytes_partially, from_reader_partially, from_async_reader_partially, util::read_directories(_async); oracle = full content (spec reader) filtered by RangeBounds::contains; non-trivial = ranges selecting a proper non-empty subset");
     rep.assume("build has overflow checks on, as debug builds of users do");
     let subs = subjects(thorough);
     let mut total = 0u64;
